@@ -12,6 +12,21 @@ ENV = dict(os.environ, PATH=TC + ":" + os.environ["PATH"], GOTOOLCHAIN="local", 
 ENV.pop("GOWORK", None)
 
 
+class GitLock:
+    """git worktree add/remove are serialised across processes (neutralcheck, verify_seed use the same file)."""
+
+    def __enter__(self):
+        import fcntl
+        os.makedirs("/tmp/seedv", exist_ok=True)
+        self.f = open("/tmp/seedv/.gitlock", "w")
+        fcntl.flock(self.f, fcntl.LOCK_EX)
+
+    def __exit__(self, *a):
+        import fcntl
+        fcntl.flock(self.f, fcntl.LOCK_UN)
+        self.f.close()
+
+
 def main():
     want = sys.argv[1:]
     os.makedirs("/tmp/seedchk", exist_ok=True)
@@ -25,8 +40,9 @@ def main():
         meta = json.load(open(d + "/meta.json"))
         props = meta.get("check_properties") or [meta["property"]]
         wt = f"/tmp/seedchk/{sid}"
-        subprocess.run(["git", "-C", "/repo", "worktree", "remove", "--force", wt], capture_output=True)
-        subprocess.check_call(["git", "-C", "/repo", "worktree", "add", "-q", "--detach", wt, "HEAD"])
+        with GitLock():
+            subprocess.run(["git", "-C", "/repo", "worktree", "remove", "--force", wt], capture_output=True)
+            subprocess.check_call(["git", "-C", "/repo", "worktree", "add", "-q", "--detach", wt, "HEAD"])
         try:
             subprocess.check_call(["git", "apply", d + "/patch.diff"], cwd=wt)
             res = {}
@@ -44,7 +60,8 @@ def main():
             for prop, v in res.items():
                 rows.append((sid, prop, "DETECTED" if v["detected"] else "missed", (v["report"] or [""])[0][:160]))
         finally:
-            subprocess.run(["git", "-C", "/repo", "worktree", "remove", "--force", wt], capture_output=True)
+            with GitLock():
+                subprocess.run(["git", "-C", "/repo", "worktree", "remove", "--force", wt], capture_output=True)
     for r in rows:
         print("%-8s %-4s %-9s %s" % r)
     print("detected %d / %d" % (sum(1 for r in rows if r[2] == "DETECTED"), len(rows)))
